@@ -14,6 +14,8 @@ type cval struct {
 	sort  string     // sort when typ == nil
 	atRef bool       // typ is a struct type and t is the reference where it is stored
 	mapOf *types.Map
+	lv    *LV // the value is the address of this location (pointer to a slice element, ...)
+	src   string // "T.f" when the value was loaded from that field (provenance of call arguments)
 }
 
 type cenv struct {
@@ -26,6 +28,40 @@ type cenv struct {
 	allocOld Term
 	err    error
 	iter   Term // visited-set of the enclosing map range loop
+	sides  *[]Term // heap well-formedness facts about pointers read from the heap (ref <= alloc)
+	asGoal bool
+}
+
+// wf records that a pointer-like value read from the heap denotes an allocated object.
+func (ce *cenv) wf(v cval) cval {
+	if ce.sides == nil || v.typ == nil || ce.heap == nil {
+		return v
+	}
+	switch v.typ.Underlying().(type) {
+	case *types.Pointer, *types.Map:
+		*ce.sides = append(*ce.sides, Le(v.t, ce.heap.alloc))
+	case *types.Slice:
+		*ce.sides = append(*ce.sides, Le(sx("s_arr", v.t), ce.heap.alloc))
+	}
+	return v
+}
+
+// evalTop evaluates a clause; asGoal says whether it is to be proved (facts weaken it) or assumed.
+func (ce *cenv) evalTop(x *CExpr, asGoal bool) cval {
+	var sides []Term
+	ce.sides = &sides
+	ce.asGoal = asGoal
+	r := ce.eval(x)
+	ce.sides = nil
+	if len(sides) == 0 {
+		return r
+	}
+	if asGoal {
+		r.t = Imp(And(sides...), r.t)
+	} else {
+		r.t = And(And(sides...), r.t)
+	}
+	return r
 }
 
 func (ce *cenv) fail(f string, a ...interface{}) cval {
@@ -53,6 +89,8 @@ func ghostSort(e *Engine, ty string) (string, types.Type) {
 		return SBool, types.Typ[types.Bool]
 	case "string":
 		return SStr, types.Typ[types.String]
+	case "iface":
+		return SIface, nil
 	case "set<ref>", "set<int>":
 		return "(Array Int Bool)", nil
 	case "set<string>":
@@ -195,11 +233,29 @@ func (ce *cenv) eval(x *CExpr) cval {
 			bs = append(bs, "("+n+" "+s+")")
 			sub.vars[bv.Name] = cval{t: n, typ: ty, sort: s}
 		}
+		var qsides []Term
+		if ce.sides != nil {
+			sub.sides = &qsides
+		}
 		body := sub.eval(x.Args[0])
 		if sub.err != nil && ce.err == nil {
 			ce.err = sub.err
 		}
-		return cval{t: "(" + x.Op + " (" + strings.Join(bs, " ") + ") " + body.t + ")", typ: types.Typ[types.Bool]}
+		bt := body.t
+		if len(qsides) > 0 {
+			// well-formedness of the pointers read under the binder is a fact of every heap
+			switch {
+			case x.Op == "forall" && ce.asGoal:
+				bt = Imp(And(qsides...), bt)
+			case x.Op == "forall":
+				bt = And(And(qsides...), bt)
+			case ce.asGoal:
+				// existential goal: the witness is an allocated object anyway
+			default:
+				bt = And(And(qsides...), bt)
+			}
+		}
+		return cval{t: "(" + x.Op + " (" + strings.Join(bs, " ") + ") " + bt + ")", typ: types.Typ[types.Bool]}
 	case "call":
 		return ce.call(x)
 	}
@@ -243,6 +299,19 @@ func (ce *cenv) selField(base cval, name string) cval {
 	_ = fv
 	cur := base
 	for _, idx := range path {
+		if cur.lv != nil && cur.lv.arr != "" {
+			// field of a struct stored by value at a resolved location
+			st := deref(cur.typ)
+			sst, ok := st.Underlying().(*types.Struct)
+			if !ok {
+				return ce.fail("selecting field of non-struct %s", st)
+			}
+			ssort := vc.e.structSort(st)
+			nl := &LV{arr: cur.lv.arr, sort: cur.lv.sort, idx: cur.lv.idx, typ: sst.Field(idx).Type()}
+			nl.path = append(append([]lvStep{}, cur.lv.path...), lvStep{vc.e.structs[ssort], idx})
+			cur = cval{t: vc.readLVIn(ce.heap, nl), typ: sst.Field(idx).Type()}
+			continue
+		}
 		t := cur.typ
 		var ref Term
 		isRef := false
@@ -264,7 +333,7 @@ func (ce *cenv) selField(base cval, name string) cval {
 				cur = cval{t: vc.embPtr(t, idx, ref), typ: f.Type(), atRef: true}
 			} else {
 				n, srt, _ := vc.e.fieldArr(t, idx)
-				cur = cval{t: Sel(vc.arrIn(ce.heap, n, srt), ref), typ: f.Type()}
+				cur = ce.wf(cval{t: Sel(vc.arrIn(ce.heap, n, srt), ref), typ: f.Type()})
 			}
 		} else {
 			s := vc.e.structSort(t)
@@ -278,21 +347,21 @@ func (ce *cenv) selField(base cval, name string) cval {
 func (ce *cenv) index(base, idx cval) cval {
 	vc := ce.vc
 	if base.typ == nil {
-		// ghost set / map
-		return cval{t: Sel(base.t, idx.t), sort: SBool, typ: types.Typ[types.Bool]}
+		// ghost set / map keyed by object identity
+		return cval{t: Sel(base.t, ce.refOf(idx)), sort: SBool, typ: types.Typ[types.Bool]}
 	}
 	switch u := base.typ.Underlying().(type) {
 	case *types.Slice:
 		n, srt := vc.e.elemArr(u.Elem())
 		a := vc.arrIn(ce.heap, n, srt)
-		return cval{t: Sel(Sel(a, sx("s_arr", base.t)), Add(sx("s_off", base.t), idx.t)), typ: u.Elem()}
+		return ce.wf(cval{t: vc.eltTerm(u.Elem(), a, base.t, idx.t), typ: u.Elem()})
 	case *types.Basic:
 		if u.Info()&types.IsString != 0 {
 			return cval{t: sx("sat", base.t, idx.t), typ: types.Typ[types.Int]}
 		}
 	case *types.Map:
 		_, v, _, vs := vc.e.mapArrs(u)
-		return cval{t: Sel(Sel(vc.arrIn(ce.heap, v, vs), base.t), ce.coerce(idx, u.Key()).t), typ: u.Elem()}
+		return ce.wf(cval{t: Sel(Sel(vc.arrIn(ce.heap, v, vs), base.t), ce.coerce(idx, u.Key()).t), typ: u.Elem()})
 	}
 	return ce.fail("cannot index %s", base.typ)
 }
@@ -308,13 +377,22 @@ func (ce *cenv) binop(x *CExpr) cval {
 	boolT := types.Typ[types.Bool]
 	switch x.Name {
 	case "&&":
-		a, b := ce.eval(x.Args[0]), ce.eval(x.Args[1])
+		a := ce.eval(x.Args[0])
+		if a.t == "false" {
+			return cval{t: "false", typ: boolT}
+		}
+		b := ce.eval(x.Args[1])
 		return cval{t: And(a.t, b.t), typ: boolT}
 	case "||":
 		a, b := ce.eval(x.Args[0]), ce.eval(x.Args[1])
 		return cval{t: Or(a.t, b.t), typ: boolT}
 	case "==>":
-		a, b := ce.eval(x.Args[0]), ce.eval(x.Args[1])
+		a := ce.eval(x.Args[0])
+		if a.t == "false" {
+			// statically false antecedent: the consequent need not even be well-scoped here
+			return cval{t: "true", typ: boolT}
+		}
+		b := ce.eval(x.Args[1])
 		return cval{t: Imp(a.t, b.t), typ: boolT}
 	case "<==>":
 		a, b := ce.eval(x.Args[0]), ce.eval(x.Args[1])
@@ -340,6 +418,9 @@ func (ce *cenv) binop(x *CExpr) cval {
 				bt = ce.vc.structAt(ce.heap, b.t, b.typ)
 			}
 			t = Eq(at, bt)
+			if ce.vc.litTerms[at] && ce.vc.litTerms[bt] && at != bt {
+				t = "false" // two different string literals
+			}
 		}
 		if x.Name == "!=" {
 			t = Not(t)
@@ -404,7 +485,8 @@ func (ce *cenv) call(x *CExpr) cval {
 			if recv.typ != nil {
 				if mt, ok := recv.typ.Underlying().(*types.Map); ok {
 					d, _, ds, _ := vc.e.mapArrs(mt)
-					return cval{t: Sel(Sel(vc.arrIn(ce.heap, d, ds), recv.t), k.t), typ: boolT}
+					// a nil map has no keys
+					return cval{t: And(Ne(recv.t, "0"), Sel(Sel(vc.arrIn(ce.heap, d, ds), recv.t), k.t)), typ: boolT}
 				}
 			}
 			return cval{t: Sel(recv.t, k.t), typ: boolT}
@@ -464,7 +546,71 @@ func (ce *cenv) call(x *CExpr) cval {
 		if ty == nil {
 			return ce.fail("unknown type %s", args[1].Name)
 		}
+		if a.typ != nil && !types.IsInterface(a.typ) {
+			// a name that already denotes the value narrowed by a type switch
+			if types.Identical(a.typ, ty) {
+				return cval{t: "true", typ: boolT}
+			}
+			return cval{t: "false", typ: boolT}
+		}
 		return cval{t: Eq(sx("i_tag", a.t), IntLit(int64(vc.e.tagOf(ty)))), typ: boolT}
+	case "keys_card":
+		// keys_card(m1, m2): ground instance of the finite-map lemma
+		//   keys(m1) subset keys(m2) and len(m1) == len(m2)  ==>  keys(m2) subset keys(m1)
+		// (trusted mathematics about finite maps; listed in the evidence)
+		a, b := ev(0), ev(1)
+		if a.typ == nil || b.typ == nil {
+			return ce.fail("keys_card needs two maps")
+		}
+		mt, ok := a.typ.Underlying().(*types.Map)
+		if !ok {
+			return ce.fail("keys_card needs two maps")
+		}
+		d, _, ds, _ := vc.e.mapArrs(mt)
+		D := vc.arrIn(ce.heap, d, ds)
+		ks := vc.e.sortOf(mt.Key())
+		fn := sym("ksub:" + vc.e.typeName(a.typ))
+		vc.declareFun(fn, []string{"Int", "Int"}, "Bool")
+		var fs []Term
+		for _, pr := range [][2]Term{{a.t, b.t}, {b.t, a.t}} {
+			w := vc.fresh("kwit", ks)
+			sub := sx(fn, pr[0], pr[1])
+			fs = append(fs, Imp(sub, fmt.Sprintf("(forall ((k %s)) (! (=> (select (select %s %s) k) (select (select %s %s) k)) :pattern ((select (select %s %s) k))))", ks, D, pr[0], D, pr[1], D, pr[0])))
+			fs = append(fs, Imp(Not(sub), And(Sel(Sel(D, pr[0]), w), Not(Sel(Sel(D, pr[1]), w)))))
+			fs = append(fs, Imp(And(sub, Eq(sx("maplen_i", pr[0]), sx("maplen_i", pr[1]))), sx(fn, pr[1], pr[0])))
+		}
+		// equal key sets have equal length
+		fs = append(fs, Imp(And(sx(fn, a.t, b.t), sx(fn, b.t, a.t)), Eq(sx("maplen_i", a.t), sx("maplen_i", b.t))))
+		vc.usedTrusted["finite-map lemmas keys_card (subset + equal length => equal key sets; equal key sets => equal length)"] = true
+		return cval{t: And(fs...), typ: boolT}
+	case "scanremaining", "scanpos":
+		// abstract state of a text/scanner.Scanner: number of runes left / consumed
+		a := ev(0)
+		vc.declareFun("sc_len", []string{"Int"}, "Int")
+		ref := ce.refOf(a)
+		src := Sel(vc.arrIn(ce.heap, "SC:src", "(Array Int Int)"), ref)
+		pos := Sel(vc.arrIn(ce.heap, "SC:pos", "(Array Int Int)"), ref)
+		if fn.Name == "scanpos" {
+			return cval{t: pos, typ: types.Typ[types.Int]}
+		}
+		return cval{t: Sub(sx("sc_len", src), pos), typ: types.Typ[types.Int]}
+	case "from":
+		// from(x, "T.f"): the value was read from field f of a T (syntactic provenance, no aliasing involved)
+		a := ev(0)
+		if len(args) < 2 || args[1].Op != "str" {
+			return ce.fail("from(x, \"T.f\")")
+		}
+		if a.src == args[1].Name {
+			return cval{t: "true", typ: boolT}
+		}
+		return cval{t: "false", typ: boolT}
+	case "iface":
+		// iface(p): the pointer p boxed as an interface value
+		a := ev(0)
+		if a.typ == nil {
+			return ce.fail("iface of ghost value")
+		}
+		return cval{t: sx("mk_iface", IntLit(int64(vc.e.tagOf(a.typ))), vc.box(a.t, a.typ)), sort: SIface, typ: nil}
 	case "dyn":
 		// dyn(e, "T"): the value of interface e seen as concrete (pointer) type T
 		a := ev(0)
@@ -474,6 +620,9 @@ func (ce *cenv) call(x *CExpr) cval {
 		ty := vc.e.lookupType(args[1].Name)
 		if ty == nil {
 			return ce.fail("unknown type %s", args[1].Name)
+		}
+		if a.typ != nil && !types.IsInterface(a.typ) {
+			return a
 		}
 		return cval{t: vc.unbox(sx("i_val", a.t), ty), typ: ty}
 	case "visited":
